@@ -25,9 +25,13 @@
 (*                                                                         *)
 (* The machine walks a fixed list of SITES once.  At every site it either  *)
 (* keeps the base configuration or applies one of the site's alternatives  *)
-(* (one "edit"), at most MaxEdits in total, so every configuration is      *)
-(* reached by exactly one behaviour.  Sites whose id starts with "d." are  *)
-(* DEFECT INJECTIONS (C11); the others keep the configuration valid.       *)
+(* (one "edit"), at most MaxEdits in total; an alternative is enabled only  *)
+(* while nothing it overwrites has been edited (Res), so every             *)
+(* configuration is reached by exactly one behaviour.  The state holds the *)
+(* list of edits only; the configuration Cfg = the base with the edits     *)
+(* applied is computed in complete states.  Sites whose id starts with     *)
+(* "d." are DEFECT INJECTIONS (C11); the others keep the configuration     *)
+(* valid (C10 enables only those).                                         *)
 (***************************************************************************)
 EXTENDS GQLBase, TLC
 
@@ -52,10 +56,10 @@ OF(n, v) == [n |-> n, v |-> v]
 (*  type Q { i:I u:U a:A! e:E cu:Cu t:Int g(x:Int):Int                     *)
 (*           f(in:In, in2:[In2!], en:F):Int old:Int @deprecated("gone")    *)
 (*           h(in3:In3):Boolean }                                          *)
-(*  interface I { x(a:Int=7):String }      interface J { y:I }             *)
+(*  interface I { x(a:Int=7):String }      interface J { y(k:In4):I }      *)
 (*  type A implements I { x(a:Int=7):String s:A l:[[A!]]! }                *)
 (*  type B implements I { x(a:Int=7, o:Boolean):String u:U }               *)
-(*  type C implements I & J { x(a:Int=7):String y:A d:D }     (extra)      *)
+(*  type C implements I & J { x(a:Int=7):String y(k:In4):A d:D }  (extra)  *)
 (*  type D { g:G n:Int! }  union V = C | D   enum G { X }     (extra)      *)
 (*  type K implements I { x(a:Int=7):String }                 (extra)      *)
 (*  union U = A | B                                                        *)
@@ -65,6 +69,7 @@ OF(n, v) == [n |-> n, v |-> v]
 (*  input In3 { k:Int }   input In4 { z:ID! } (extra)                      *)
 (*  scalar Cu   scalar Cu2 (extra)   type M { m(x:Int!):Int }  type S {s}  *)
 IX == FdA("x", N("String"), << ArD("a", N("Int"), IntV("7")) >>)
+JY(t) == FdA("y", t, << Ar("k", N("In4")) >>)     \* In4 is referenced by this argument only
 
 BaseTypes ==
   [ Q |-> [TDef("Q", "OBJECT") EXCEPT !.fields =
@@ -75,14 +80,14 @@ BaseTypes ==
                 [Fd("old", N("Int")) EXCEPT !.dep = "gone"],
                 FdA("h", N("Boolean"), << Ar("in3", N("In3")) >>) >>],
     I |-> [TDef("I", "INTERFACE") EXCEPT !.fields = << IX >>],
-    J |-> [TDef("J", "INTERFACE") EXCEPT !.fields = << Fd("y", N("I")) >>],
+    J |-> [TDef("J", "INTERFACE") EXCEPT !.fields = << JY(N("I")) >>],
     A |-> [TDef("A", "OBJECT") EXCEPT !.ifaces = <<"I">>,
              !.fields = << IX, Fd("s", N("A")), Fd("l", TNN(TList(TList(TNN(N("A")))))) >>],
     B |-> [TDef("B", "OBJECT") EXCEPT !.ifaces = <<"I">>,
              !.fields = << FdA("x", N("String"), << ArD("a", N("Int"), IntV("7")), Ar("o", N("Boolean")) >>),
                            Fd("u", N("U")) >>],
     C |-> [TDef("C", "OBJECT") EXCEPT !.ifaces = <<"I", "J">>,
-             !.fields = << IX, Fd("y", N("A")), Fd("d", N("D")) >>],
+             !.fields = << IX, JY(N("A")), Fd("d", N("D")) >>],
     D |-> [TDef("D", "OBJECT") EXCEPT !.fields = << Fd("g", N("G")), Fd("n", TNN(N("Int"))) >>],
     K |-> [TDef("K", "OBJECT") EXCEPT !.ifaces = <<"I">>, !.fields = << IX >>],
     U |-> [TDef("U", "UNION") EXCEPT !.members = <<"A", "B">>],
@@ -229,10 +234,11 @@ Alts(s) ==
                         L("field.type"), L("arg.type"), L("input.type"),
                         L("field"), L("arg"), L("value"), L("input") }
     [] s = "d.impl" -> ImplAlts("A") \cup ImplAlts("C")
-                        \cup { [lab |-> "C.y:D", x |-> "C", fi |-> 2, fld |-> Fd("y", N("D"))],
-                               [lab |-> "C.y:[A]", x |-> "C", fi |-> 2, fld |-> Fd("y", TList(N("A")))],
-                               [lab |-> "C.y:I(valid)", x |-> "C", fi |-> 2, fld |-> Fd("y", N("I"))],
-                               [lab |-> "C.y:K(valid)", x |-> "C", fi |-> 2, fld |-> Fd("y", N("K"))],
+                        \cup { [lab |-> "C.y:D", x |-> "C", fi |-> 2, fld |-> JY(N("D"))],
+                               [lab |-> "C.y:[A]", x |-> "C", fi |-> 2, fld |-> JY(TList(N("A")))],
+                               [lab |-> "C.y:I(valid)", x |-> "C", fi |-> 2, fld |-> JY(N("I"))],
+                               [lab |-> "C.y:K(valid)", x |-> "C", fi |-> 2, fld |-> JY(N("K"))],
+                               [lab |-> "C.y(no k)", x |-> "C", fi |-> 2, fld |-> Fd("y", N("A"))],
                                [lab |-> "C.y missing", x |-> "C", fi |-> 2, fld |-> Fd("w", N("A"))] }
     [] s = "d.nnnn" -> { [lab |-> p \o ":" \o WLab(w), p |-> p, w |-> w] :
                            p \in {"field", "arg", "input"},
